@@ -440,7 +440,15 @@ class UnkIndexSet(object):
     def size(self):
         return UnkInt(self.tags)
 
+    coarse = False         # True: the set stands for one of several coupled index arrays (np.nonzero of a 2-d mask)
+
     def __getitem__(self, i):
+        if self.coarse:
+            # which hit sits at which position couples all columns of the mask (row major order): joining everything would
+            # accuse a correct use (np.nonzero(mask.T)) of mixing columns, so this stays undecided
+            raise AnalysisError('element of an index array of np.nonzero of an undetermined mask (order of the hits is not modelled)')
+        if isinstance(i, Arr):
+            return Arr(i.shape, [IdxAny(self.tags | tags_of(v)) for v in i.items()])
         return IdxAny(self.tags | tags_of(i))
 
     def __len__(self):
@@ -527,6 +535,19 @@ def make_hooks(real_only_sinks=None):
             return UnkIndexSet(tags_of(a), a.size)
         return NotImplemented
     hooks['np.flatnonzero'] = flatnonzero
+
+    def nonzero(models, a):
+        a = models.np_asarray(a)
+        if any(isinstance(v, (Unk, Choice, DV)) for v in a.items()):
+            # one index set per dimension, each of unknown size and content (row major order of the hits is not modelled:
+            # whatever is read through these sets depends on the whole mask)
+            sets = tuple(UnkIndexSet(tags_of(a), n) for n in a.shape)
+            if len(sets) > 1:
+                for st in sets:
+                    st.coarse = True
+            return sets
+        return NotImplemented
+    hooks['np.nonzero'] = nonzero
 
     def np_where(models, cond, a=None, b=None):
         if a is None:
